@@ -42,10 +42,30 @@ except Exception as e: print('get_digital_metadata:', type(e).__name__)
 r.get_bounds('ch'); r.read(10**10, 10**10 + 30, 'ch'); drf.lsdrf(top)
 if snap() != s0: print('reading changed the tree:', set(s0) ^ set(snap())); bad = 1
 mw.write(10**10 + 5, {'v': 1})
+def open_fds():
+    out = []
+    for f in os.listdir('/proc/self/fd'):
+        try: t = os.readlink('/proc/self/fd/' + f)
+        except OSError: continue
+        if t.startswith(md): out.append(os.path.relpath(t, md))
+    return out
+if open_fds(): print('write() returned with metadata files still open in the writer:', open_fds()); bad = 1
+import subprocess
+def other_process():
+    # what a reader in ANOTHER process sees right now (inside one process HDF5 shares an open file, which hides unflushed data)
+    code = "import sys; sys.path.insert(0, %r); from vlib import chload; drf = chload.load(); r = drf.DigitalMetadataReader(sys.argv[1]); print(r.get_bounds(), sorted(int(k) for k in r.read_latest().keys()))" % sys.path[0]
+    p = subprocess.run([sys.executable, '-c', code, md], stdout=subprocess.PIPE, stderr=subprocess.PIPE, text=True)
+    return p.stdout.strip().splitlines()[-1] if p.stdout.strip() else 'FAILED: ' + p.stderr.strip().splitlines()[-1][:200]
+seen = other_process()
+if seen != str(((10**10 + 5, 10**10 + 5), [10**10 + 5])).replace('((', '(').replace('),', ')', 1) and seen != '(%d, %d) [%d]' % (10**10 + 5, 10**10 + 5, 10**10 + 5):
+    print('a reader in another process sees', seen, 'after write() returned'); bad = 1
 r2 = drf.DigitalMetadataReader(md)
 if r2.get_bounds() != (10**10 + 5, 10**10 + 5): print('bounds', r2.get_bounds()); bad = 1
 mw.write(10**10 + 700, {'v': 2})
 if list(r2.read_latest().keys()) != [10**10 + 700] or r2.get_bounds()[1] != 10**10 + 700: print('earlier reader does not see the new sample'); bad = 1
+seen = other_process()
+if seen != '(%d, %d) [%d]' % (10**10 + 5, 10**10 + 700, 10**10 + 700): print('a reader in another process sees', seen, 'after the second write() returned'); bad = 1
+if open_fds(): print('write() returned with metadata files still open in the writer:', open_fds()); bad = 1
 shutil.rmtree(top)
 sys.exit(1 if bad else 0)
 '''
@@ -58,7 +78,7 @@ warnings.simplefilter('ignore')
 drf = build.load_pkg()
 kw = %r
 a, d1, d2, pos = kw.get('a', 0), kw.get('d1', 1), kw.get('d2', 1), kw.get('pos', 2)
-base = 10**6
+base = 0
 three = [base + a, base + a + d1, base + a + d1 + d2]
 new = three[pos]; old = [x for x in three if x != new]
 top = tempfile.mkdtemp(); md = os.path.join(top, 'md'); os.makedirs(md)
